@@ -78,7 +78,21 @@ def showDict {α : Type} (f : α → String) (d : Dict α) : String :=
 def showVia (v : ViaLoc) : String := s!"{v.1},{v.2.1},{pct v.2.2}"
 def showList (l : List String) : String := if l.isEmpty then "." else ";".intercalate l
 
-/-! ### text level: `defparse <pct-encoded text>` → `syntax` | `<ok|raise> <tree>`; the tree is lark's parse tree with all
+/-- a net's `routed` list in the request format above (`~` no ROUTED statement, `.` empty) -/
+def showItem : Item → String
+  | .pt p => "p," ++ showRPt p
+  | .via n none => "v," ++ pct n
+  | .via n (some o) => "v," ++ pct n ++ "," ++ pct o
+  | .arr n nx ny dx dy => s!"a,{pct n},{nx},{ny},{dx},{dy}"
+def showWire (w : Wire) : String :=
+  s!"{pct w.layer}:{showWidth w.width}:{";".intercalate (("p," ++ showRPt w.start) :: w.rest.map showItem)}"
+def showNet : Option (List Wire) → String
+  | none => "~"
+  | some [] => "."
+  | some ws => "|".intercalate (ws.map showWire)
+
+/-! ### text level: `defparse <pct-encoded text>` → `syntax` | `<ok|raise> <tree> <nets>`; nets = `S:name=<net>` / `N:name=<net>` per special / regular net in file order,
+`!`-separated (`-` for none), `<net>` = its ROUTED wires in the request format above; the tree is lark's parse tree with all
 tokens kept (`keep_all_tokens=True`): `rule[child,child,..]`, leaves percent-encoded token texts -/
 namespace Text
 open KV.DefText
@@ -159,7 +173,10 @@ def handle (args : List String) : String :=
   | [t] =>
     match parseTree (pctDecode t.toList) with
     | none => "syntax"
-    | some f => s!"{if f.ok then "ok" else "raise"} {file f}"
+    | some f =>
+      let nets := f.netsRouted.map fun (sp, name, r) =>
+        (if sp then "S:" else "N:") ++ Def.pct (String.ofList name) ++ "=" ++ Def.showNet r
+      s!"{if f.ok then "ok" else "raise"} {file f} {if nets.isEmpty then "-" else "!".intercalate nets}"
   | _ => "bad-args"
 end Text
 
